@@ -2,7 +2,6 @@
     Statements only; proofs are in Persist.v / Hist.v. *)
 From Coq Require Import List NArith ZArith Bool.
 From Mast Require Import Prim Key Tree KeyOrder Codec Store Diff World Erase Build Spec Canon Links Level Inv Hist Persist Reload DiffLinks PersistCount CostW WorldInv Clean CleanHist.
-From Mast Require Import ReloadB.
 Import ListNotations.
 
 (** persisting a tree that was not modified since it was loaded or persisted writes nothing at all
@@ -33,10 +32,10 @@ Proof. exact store_node_count. Qed.
 
 (** IsDirty: a tree that reports itself clean and holds its root by pointer holds exactly the stored
     node it was loaded from or persisted as (so its contents are that version's) *)
-Theorem C13_clean_root_is_the_stored_version : forall s kind (m : kmast) n h,
-  root_allh s kind m -> is_dirty _ _ m = false -> m_root _ _ m = LPtr n -> n_src _ _ n = Some h -> sto s kind h n.
+Theorem C13_clean_root_is_the_stored_version : forall fmt s kind (m : kmast) n h,
+  root_allh fmt s kind m -> is_dirty _ _ m = false -> m_root _ _ m = LPtr n -> n_src _ _ n = Some h -> sto fmt s kind h n.
 Proof.
-  intros s kind m n h Ha Hd Er Hs. unfold root_allh in Ha. rewrite Er in Ha. unfold is_dirty in Hd. rewrite Er in Hd.
+  intros fmt s kind m n h Ha Hd Er Hs. unfold root_allh in Ha. rewrite Er in Ha. unfold is_dirty in Hd. rewrite Er in Hd.
   inversion Ha as [|c Hc|]; subst. destruct n as [d sr l0 es]. cbn [n_dirty n_src] in Hd, Hs. subst d sr.
   inversion Hc as [? ? ? ? _ _ Hcl]; subst. exact (Hcl eq_refl h eq_refl).
 Qed.
@@ -95,14 +94,14 @@ Proof. exact delete_count. Qed.
 
 (** ... so one Insert (new key or new value) into a freshly loaded version, followed by a persist,
     emits at most 2*height+1 Store events, one Delete at most height+1 *)
-Theorem C13_one_insert_writes_at_most_2h_plus_1 : forall s kind bf (m m' : kmast) k v t fuel f,
-  root_allh s kind m -> (exists h c, m_root _ _ m = LHash h c) ->
+Theorem C13_one_insert_writes_at_most_2h_plus_1 : forall fmt s kind bf (m m' : kmast) k v t fuel f,
+  root_allh fmt s kind m -> (exists h c, m_root _ _ m = LHash h c) ->
   insert _ _ kcmp bytes_eqb (klayer bf) m k v = (t, Ok m') -> m_height _ _ m' = m_height _ _ m ->
   forall n', m_root _ _ m' = LPtr n' ->
   okt (store_node fuel f n') (fun ts _ => length (stored ts) <= 2 * m_height _ _ m + 1).
 Proof. exact insert_then_persist_writes. Qed.
-Theorem C13_one_delete_writes_at_most_h_plus_1 : forall s kind bf (m m' : kmast) k v t fuel f,
-  root_allh s kind m -> (exists h c, m_root _ _ m = LHash h c) ->
+Theorem C13_one_delete_writes_at_most_h_plus_1 : forall fmt s kind bf (m m' : kmast) k v t fuel f,
+  root_allh fmt s kind m -> (exists h c, m_root _ _ m = LHash h c) ->
   delete _ _ kcmp bytes_eqb (klayer bf) m k v = (t, Ok m') -> m_height _ _ m' = m_height _ _ m ->
   forall n', m_root _ _ m' = LPtr n' ->
   okt (store_node fuel f n') (fun ts _ => length (stored ts) <= m_height _ _ m + 1).
@@ -111,8 +110,8 @@ Proof. exact delete_then_persist_writes. Qed.
 (** ... and a batch: n >= 1 successful Inserts and Deletes on a freshly loaded version, none of which
     changes the height ([chain]), then one persist: at most 1 + 2*height*n Store events, within
     (2*height+2) per modified key *)
-Theorem C13_batch_writes_at_most_2h_plus_2_per_key : forall s kind bf (m m' : kmast) ops fuel f,
-  root_allh s kind m -> (exists h c, m_root _ _ m = LHash h c) -> chain bf m ops m' ->
+Theorem C13_batch_writes_at_most_2h_plus_2_per_key : forall fmt s kind bf (m m' : kmast) ops fuel f,
+  root_allh fmt s kind m -> (exists h c, m_root _ _ m = LHash h c) -> chain bf m ops m' ->
   forall n', m_root _ _ m' = LPtr n' ->
   okt (store_node fuel f n') (fun ts _ => length (stored ts) <= 1 + 2 * m_height _ _ m * length ops
                                         /\ (ops <> [] -> length (stored ts) <= (2 * m_height _ _ m + 2) * length ops)).
@@ -125,9 +124,9 @@ Definition ex13_ops : list op :=
    OIns 0%N (KUint 7%N) [53%N]; OMakeRoot 0%N 0%N; OLoad 0%N 1%N 0%N 1%N].
 Definition ex13_batch : list wop := [WIns (KUint 9%N) [57%N]; WDel (KUint 5%N) [52%N]].
 Example C13_example_batch :
-  exists tr s kind m2 n',
+  exists tr fmt s kind m2 n',
     aget (w_trees (wrun empty_world ex13_ops)) 1%N = Some tr /\
-    root_allh s kind (t_m tr) /\ (exists h c, m_root _ _ (t_m tr) = LHash h c) /\ 0 < m_height _ _ (t_m tr) /\
+    root_allh fmt s kind (t_m tr) /\ (exists h c, m_root _ _ (t_m tr) = LHash h c) /\ 0 < m_height _ _ (t_m tr) /\
     chain 2%N (t_m tr) ex13_batch m2 /\ m_root _ _ m2 = LPtr n'.
 Proof.
   assert (Hc : conds empty_world ([], []) ex13_ops) by (apply condsb_ok; vm_compute; reflexivity).
@@ -137,7 +136,7 @@ Proof.
   let v := eval vm_compute in (aget (fst (awrun2 ([], []) ex13_ops)) 1%N) in
     assert (E2 : aget (fst (awrun2 ([], []) ex13_ops)) 1%N = v) by (vm_compute; reflexivity).
   rewrite E1, E2 in Ht. destruct Ht as (_ & _ & Hall & _).
-  eexists _, _, _, _, _. split; [exact E1|]. split; [exact Hall|]. cbn [t_m].
+  eexists _, _, _, _, _, _. split; [exact E1|]. split; [exact Hall|]. cbn [t_m].
   split; [eexists _, _; reflexivity|]. split; [cbn [m_height]; apply Nat.lt_0_succ|].
   split.
   - eapply chain_cons; [vm_compute; reflexivity|reflexivity|].
